@@ -132,7 +132,7 @@ m("M74", ["C16"], "parser/parser_context.go", "\treturn slices.Contains(p.contex
 m("M75", [], "parser/parser_functions.go", "\tp.PushContext(BlockContext)\n\tdefer p.PopContext()\n\tp.NextToken()", "\tif p.IsInFunction() || len(p.contextStack) < 2 {\n\t\tp.PushContext(BlockContext)\n\t\tdefer p.PopContext()\n\t}\n\tp.NextToken()", expect="either", note="nested plain blocks outside functions share one context entry: equivalent for the public queries (CurrentContext is Block either way)")
 
 def sh(cmd, cwd=None, timeout=900):
-    r = subprocess.run(cmd, cwd=cwd, env=ENV, shell=isinstance(cmd, str), stdout=subprocess.PIPE, stderr=subprocess.STDOUT, text=True, timeout=timeout)
+    r = subprocess.run(cmd, cwd=cwd, env=ENV, shell=isinstance(cmd, str), stdout=subprocess.PIPE, stderr=subprocess.STDOUT, text=True, errors="replace", timeout=timeout)
     return r.returncode, r.stdout
 
 def clean():
